@@ -1,5 +1,6 @@
 import Casket.Proofs.Chain
 import Casket.Proofs.Cond
+import Casket.Proofs.Htpasswd
 import Casket.Generated.Directives
 /-
 C03 — Protected paths are never disclosed without valid credentials.
@@ -185,6 +186,55 @@ theorem C03_no_disclosure_dirscoped (fs : FS) (cs : ChainSite) (r : CReq)
     (hds : DirScoped cs) (hpn : PlainNames cs.site) (hac : ArchiveScopesClear cs) (hpc : ProxyScopesClear cs) :
     ChainSpec.verdict fs cs r (chainServe fs cs r) = "ok" :=
   chainServe_verdict_ok_clear hroot hpre hrd hw hl hfs hds hpn hac hpc
+
+/-! ### Several sites with htpasswd files in one process -/
+
+open Casket.Htpasswd Casket.HtpasswdProofs in
+/-- The process-wide htpasswd cache is not observable.  For every history of configuration loads
+(any sites, in any order, repeated, each load with its own snapshot of the files on disk), started
+from any cache whose entries stem from those snapshots, the sites of the last load get exactly the
+password matchers built from their OWN file (root joined with the name after `htpasswd=`) as it is
+at that load.  Assumption `Faithful`: modification time and size identify a file's content. -/
+theorem C03_htpasswd_cache_unobservable (W : List Files) (hist : List Load) (c : Cache)
+    (hW : Faithful W) (hH : ∀ l ∈ hist, l.1 ∈ W) (hc : Coherent W c) :
+    (runHistory c hist).2 = match hist.getLast? with | some l => l.2.map (fun s => (s, ownMatcher l.1 s)) | none => [] :=
+  runHistory_spec hist hW hH hc
+
+open Casket.Htpasswd Casket.HtpasswdProofs in
+/-- Hence a protected resource of a site is served exactly with credentials valid for THAT site
+(`HtpasswdSpec.verdict`, the predicate the driver applies to the answers of real multi-site
+instances in the stream `c03.multi`): never with another site's password for the same user name,
+never with a password the file no longer contains. -/
+theorem C03_multi_model_verdict_ok (W : List Files) (hist : List Load) (last : Load) (c : Cache)
+    (hW : Faithful W) (hH : ∀ l ∈ hist, l.1 ∈ W) (hc : Coherent W c) (hl : hist.getLast? = some last)
+    (host path : Bytes) (creds : Option (Bytes × Bytes)) :
+    Casket.HtpasswdSpec.verdict last.1 last.2 host path creds (Casket.Htpasswd.serve c hist host path creds) = "ok" :=
+  serve_verdict_ok hist last hW hH hc hl host path creds
+
+/-- (non-vacuity and tests) two roots, the same relative file name, the same user with different
+passwords: loading A then B, B refuses A's password and accepts its own; after the file was edited
+and the configuration loaded again the old password is refused. -/
+def mA : Casket.Htpasswd.SiteCfg := { host := b! "a", root := b! "/rA", file := b! "users.ht", user := b! "bob" }
+def mB : Casket.Htpasswd.SiteCfg := { host := b! "b", root := b! "/rB", file := b! "users.ht", user := b! "bob" }
+def mF1 : Casket.Htpasswd.Files := [(b! "/rA/users.ht", 1, [(b! "bob", .sha (b! "pwA"))]), (b! "/rB/users.ht", 1, [(b! "bob", .sha (b! "pwB"))])]
+def mF2 : Casket.Htpasswd.Files := [(b! "/rA/users.ht", 2, [(b! "bob", .sha (b! "pwA2"))]), (b! "/rB/users.ht", 1, [(b! "bob", .sha (b! "pwB"))])]
+example : Casket.HtpasswdProofs.Faithful [mF1, mF2] := by
+  intro F hF F' hF' k st t t' h h'
+  simp only [List.mem_cons, List.not_mem_nil, or_false] at hF hF'
+  by_cases k1 : b! "/rA/users.ht" = k
+  · subst k1
+    rcases hF with rfl | rfl <;> rcases hF' with rfl | rfl <;>
+      simp [mF1, mF2, Casket.Htpasswd.Files.get, List.find?] at h h' <;> (try (first | omega | simp_all))
+  · by_cases k2 : b! "/rB/users.ht" = k
+    · subst k2
+      rcases hF with rfl | rfl <;> rcases hF' with rfl | rfl <;>
+        simp [mF1, mF2, Casket.Htpasswd.Files.get, List.find?] at h h' <;> (try (first | omega | simp_all))
+    · rcases hF with rfl | rfl <;> simp [mF1, mF2, Casket.Htpasswd.Files.get, List.find?, k1, k2] at h
+example : Casket.HtpasswdProofs.Coherent [mF1, mF2] [] := Casket.HtpasswdProofs.coherent_nil _
+example : Casket.Htpasswd.serve [] [(mF1, [mA, mB])] (b! "b") (b! "/secret/s.txt") (some (b! "bob", b! "pwA")) = .unauthorized := by decide
+example : Casket.Htpasswd.serve [] [(mF1, [mA, mB])] (b! "b") (b! "/secret/s.txt") (some (b! "bob", b! "pwB")) = .content (b! "/rB") := by decide
+example : Casket.Htpasswd.serve [] [(mF1, [mA, mB]), (mF2, [mB, mA])] (b! "a") (b! "/secret/s.txt") (some (b! "bob", b! "pwA")) = .unauthorized := by decide
+example : Casket.Htpasswd.serve [] [(mF1, [mA, mB]), (mF2, [mB, mA])] (b! "a") (b! "/secret/s.txt") (some (b! "bob", b! "pwA2")) = .content (b! "/rA") := by decide
 
 /-! ### Witnesses: the full property fails on the model exactly as on the real code -/
 
